@@ -13,7 +13,9 @@ ASSUMPTIONS = ["error() on a pending lazy Future whose provider raises propagate
                "ConstFuture/ErrorFuture use a sinking hook: subscribers added after completion are never called, which the property allows",
                "after reset_unsafe() only Future(provider) is asked to recompute naturally; other kinds are completed again through set_value/set_error only"]
 
-KINDS = ["future_ok", "future_raise", "const", "errfut", "task_ret", "task_raise", "task_block", "batch_ok", "batch_fail", "item_ok", "item_fail", "debugitem"]
+KINDS = ["future_ok", "future_raise", "const", "errfut", "task_ret", "task_raise", "task_block", "batch_ok", "batch_fail", "item_ok", "item_fail", "debugitem",
+         "task_suspended", "task_suspended_cleanup_raises"]
+SUSPENDED = ("task_suspended", "task_suspended_cleanup_raises")
 
 
 class E(Exception):
@@ -21,6 +23,10 @@ class E(Exception):
 
 
 class CBErr(Exception):
+    pass
+
+
+class CleanupError(Exception):
     pass
 
 
@@ -87,9 +93,24 @@ def check(case, ctx):
         v = yield DebugBatchItem("c10", "dv")
         return ["tb", v]
 
+    @A()
+    def t_susp():
+        R["runs"] += 1
+        ok = False
+        try:
+            v = yield DebugBatchItem("c10s", "dv")
+            ok = True
+        finally:
+            # clean-up that fails when the generator is closed while suspended
+            if not ok and kind == "task_suspended_cleanup_raises":
+                raise CleanupError()
+        return ["ts", v]
+
     state = ["pending"]
     natural = None
-    if kind == "future_ok":
+    if kind in SUSPENDED:
+        f = t_susp.asynq(); natural = ["value", ["ts", "dv"]]
+    elif kind == "future_ok":
         f = Future(prov_ok); natural = ["value", "pv"]
     elif kind == "future_raise":
         f = Future(prov_raise); natural = ["error", perr]
@@ -115,7 +136,7 @@ def check(case, ctx):
         f = DebugBatchItem("c10d", "dd"); natural = ["value", "dd"]
     sinking = kind in ("const", "errfut")
     lazy = kind in ("future_ok", "future_raise")
-    M = {"runs": 0, "ran": False, "subs": 0, "no_natural": natural is None, "completions": 0, "after": 0}
+    M = {"runs": 0, "ran": False, "subs": 0, "no_natural": natural is None, "completions": 0, "after": 0, "finished_body": False}
     cb_log = []
 
     def complete(outcome):
@@ -138,93 +159,133 @@ def check(case, ctx):
                 r = ["exc", e]
         return r, cb_log[n0:]
 
-    def bad(clause, msg):
-        viol.append(("C10." + clause, "%s future, after ops %r: %s" % (kind, case["ops"][:step + 1], msg)))
-
     skipped = 0
-    for step, op in enumerate(case["ops"]):
-        name = op[0]
-        expect_cb = []
-        if name in ("value", "call", "error"):
-            was_pending = state[0] == "pending"
-            if was_pending and M["no_natural"]:
-                skipped += 1
-                continue
-            r, cbs = do({"value": f.value, "call": f, "error": f.error}[name])
-            if was_pending:
-                expect_cb = run_natural()
-            if state[0] != "pending":
-                M["after"] += (not was_pending)
-            if name == "error":
-                if was_pending and kind == "future_raise":
-                    if not (r[0] == "exc" and r[1] is perr):
-                        bad("outcome", "error() on the pending raising Future gave %r" % (r,))
-                elif state[0] == "value":
-                    if r != ["ret", None]:
-                        bad("outcome", "error() returned %r although the outcome is value %r" % (r, state[1]))
-                elif not (r[0] == "ret" and r[1] is state[1]):
-                    bad("outcome", "error() gave %r, outcome is error %r" % (r, state[1]))
-            else:
-                if state[0] == "value":
-                    if not (r[0] == "ret" and r[1] == state[1]):
-                        bad("outcome", "%s() gave %r, outcome is value %r" % (name, r, state[1]))
-                elif not (r[0] == "exc" and r[1] is state[1]):
-                    bad("outcome", "%s() gave %r, outcome is error %r" % (name, r, state[1]))
-        elif name == "is_computed":
-            r, cbs = do(f.is_computed)
-            if r != ["ret", state[0] != "pending"]:
-                bad("outcome", "is_computed() gave %r in state %s" % (r, state[0]))
-        elif name in ("set_value", "set_error"):
-            was_pending = state[0] == "pending"
-            if name == "set_value":
-                new = ["value", ["sv", op[1]]]
-                r, cbs = do(lambda: f.set_value(["sv", op[1]]))
-            else:
-                e = E(("se", op[1]))
-                new = ["error", e]
-                r, cbs = do(lambda: f.set_error(e))
-            if was_pending:
-                if r != ["ret", None]:
-                    bad("once", "%s on a pending future gave %r" % (name, r))
-                expect_cb = complete(new)
-                if not lazy:
-                    M["ran"] = True     # completing it by hand: the underlying computation must not run later
-            else:
-                M["after"] += 1
-                if not (r[0] == "exc" and isinstance(r[1], FutureIsAlreadyComputed)):
-                    bad("once", "second %s gave %r instead of raising FutureIsAlreadyComputed" % (name, r))
-                # ... and changes nothing
-                if (state[0] == "value" and not (f._error is None and f._value == state[1])) or (state[0] == "error" and f._error is not state[1]):
-                    bad("once", "rejected %s changed the stored outcome" % name)
-        elif name == "reset_unsafe":
-            r, cbs = do(f.reset_unsafe)
-            state[:] = ["pending"]
-            if not lazy:
-                M["no_natural"] = True
-        elif name == "subscribe":
-            idx = M["subs"]
-            M["subs"] += 1
-            raising = op[1]
+    cur = {"step": 0}
 
-            def cb(fut, idx=idx, raising=raising):
-                cb_log.append([idx, fut.is_computed(), fut._value, fut._error])
-                if raising:
-                    raise CBErr(idx)
-            r, cbs = do(lambda: f.on_computed.subscribe(cb))
-        got = sorted(c[0] for c in cbs)
-        if got != sorted(expect_cb):
-            bad("notify", "subscribers notified %r, expected each of %r exactly once" % (got, expect_cb))
-        for c in cbs:
-            if not c[1]:
-                bad("notify", "a subscriber ran before the outcome was visible")
-            elif state[0] == "value" and not (c[3] is None and c[2] == state[1]):
-                bad("notify", "a subscriber saw %r/%r, outcome is value %r" % (c[2], c[3], state[1]))
-            elif state[0] == "error" and c[3] is not state[1]:
-                bad("notify", "a subscriber saw error %r, outcome is %r" % (c[3], state[1]))
-        if kind != "debugitem" and R["runs"] != M["runs"]:
-            bad("compute_once", "the underlying computation ran %d times, expected %d" % (R["runs"], M["runs"]))
-        if viol:
-            break
+    def perform():
+        nonlocal skipped
+        for step, op in enumerate(case["ops"]):
+            cur["step"] = step
+            name = op[0]
+            expect_cb = []
+            if name in ("value", "call", "error"):
+                was_pending = state[0] == "pending"
+                if was_pending and M["no_natural"]:
+                    skipped += 1
+                    continue
+                r, cbs = do({"value": f.value, "call": f, "error": f.error}[name])
+                if was_pending:
+                    expect_cb = run_natural()
+                    M["finished_body"] = True
+                if state[0] != "pending":
+                    M["after"] += (not was_pending)
+                if name == "error":
+                    if was_pending and kind == "future_raise":
+                        if not (r[0] == "exc" and r[1] is perr):
+                            bad("outcome", "error() on the pending raising Future gave %r" % (r,))
+                    elif state[0] == "value":
+                        if r != ["ret", None]:
+                            bad("outcome", "error() returned %r although the outcome is value %r" % (r, state[1]))
+                    elif not (r[0] == "ret" and r[1] is state[1]):
+                        bad("outcome", "error() gave %r, outcome is error %r" % (r, state[1]))
+                else:
+                    if state[0] == "value":
+                        if not (r[0] == "ret" and r[1] == state[1]):
+                            bad("outcome", "%s() gave %r, outcome is value %r" % (name, r, state[1]))
+                    elif not (r[0] == "exc" and r[1] is state[1]):
+                        bad("outcome", "%s() gave %r, outcome is error %r" % (name, r, state[1]))
+            elif name == "is_computed":
+                r, cbs = do(f.is_computed)
+                if r != ["ret", state[0] != "pending"]:
+                    bad("outcome", "is_computed() gave %r in state %s" % (r, state[0]))
+            elif name in ("set_value", "set_error"):
+                was_pending = state[0] == "pending"
+                if name == "set_value":
+                    new = ["value", ["sv", op[1]]]
+                    r, cbs = do(lambda: f.set_value(["sv", op[1]]))
+                else:
+                    e = E(("se", op[1]))
+                    new = ["error", e]
+                    r, cbs = do(lambda: f.set_error(e))
+                if was_pending:
+                    if kind == "task_suspended_cleanup_raises" and not M["finished_body"]:
+                        # closing the suspended generator runs its failing clean-up: the outcome is set and announced,
+                        # then the clean-up error reaches the caller of set_*
+                        if not (r[0] == "exc" and isinstance(r[1], CleanupError)):
+                            bad("once", "%s on the suspended task gave %r (its clean-up raises CleanupError when the generator is closed)" % (name, r))
+                    elif r != ["ret", None]:
+                        bad("once", "%s on a pending future gave %r" % (name, r))
+                    M["finished_body"] = True
+                    expect_cb = complete(new)
+                    if not lazy:
+                        M["ran"] = True     # completing it by hand: the underlying computation must not run later
+                else:
+                    M["after"] += 1
+                    if not (r[0] == "exc" and isinstance(r[1], FutureIsAlreadyComputed)):
+                        bad("once", "second %s gave %r instead of raising FutureIsAlreadyComputed" % (name, r))
+                    # ... and changes nothing
+                    if (state[0] == "value" and not (f._error is None and f._value == state[1])) or (state[0] == "error" and f._error is not state[1]):
+                        bad("once", "rejected %s changed the stored outcome" % name)
+            elif name == "reset_unsafe":
+                if kind in SUSPENDED:
+                    skipped += 1
+                    continue
+                r, cbs = do(f.reset_unsafe)
+                state[:] = ["pending"]
+                if not lazy:
+                    M["no_natural"] = True
+            elif name == "subscribe":
+                idx = M["subs"]
+                M["subs"] += 1
+                raising = op[1]
+
+                def cb(fut, idx=idx, raising=raising):
+                    cb_log.append([idx, fut.is_computed(), fut._value, fut._error])
+                    if raising:
+                        raise CBErr(idx)
+                r, cbs = do(lambda: f.on_computed.subscribe(cb))
+            got = sorted(c[0] for c in cbs)
+            if got != sorted(expect_cb):
+                bad("notify", "subscribers notified %r, expected each of %r exactly once" % (got, expect_cb))
+            for c in cbs:
+                if not c[1]:
+                    bad("notify", "a subscriber ran before the outcome was visible")
+                elif state[0] == "value" and not (c[3] is None and c[2] == state[1]):
+                    bad("notify", "a subscriber saw %r/%r, outcome is value %r" % (c[2], c[3], state[1]))
+                elif state[0] == "error" and c[3] is not state[1]:
+                    bad("notify", "a subscriber saw error %r, outcome is %r" % (c[3], state[1]))
+            if kind != "debugitem" and R["runs"] != M["runs"]:
+                bad("compute_once", "the underlying computation ran %d times, expected %d" % (R["runs"], M["runs"]))
+            if viol:
+                break
+
+    def bad(clause, msg):
+        viol.append(("C10." + clause, "%s future, after ops %r: %s" % (kind, case["ops"][:cur["step"] + 1], msg)))
+
+    if kind in SUSPENDED:
+        # the operations are performed by a sibling task while the future -- a task that has started and is
+        # suspended at a yield on an unflushed batch item -- is mid-body
+        M["runs"] = 1
+        M["ran"] = True
+
+        @A()
+        def driver():
+            if f.is_computed() or R["runs"] != 1:
+                bad("outcome", "harness: the task is not suspended when the driver runs")
+            perform()
+            return None
+            yield
+
+        @A()
+        def outer():
+            yield [f, driver.asynq()]
+        with sink.capture_print():
+            try:
+                outer()
+            except (E, CleanupError):
+                pass
+    else:
+        perform()
     ctx.label("kind=" + kind)
     ctx.label("ops-after-completion", M["after"] > 0)
     ctx.label("reset_unsafe", any(o[0] == "reset_unsafe" for o in case["ops"]))
